@@ -261,6 +261,16 @@ def b_lattice_arg(ch):
     return st
 
 
+def b_lat_value(ch):
+    """a LAT keyword with a value other than 1 or 2 is a lattice type the converter does not support"""
+    val = ch.choose('lat', ['1', '3', '0', '-1', 'x', '2.5'], free=True)
+    st = lattice_deck(2, 'fill=0:1 0:1 3 3 3 3')
+    st.cells[2] = st.cells[2].replace('lat=1', 'lat=%s' % val)
+    st.fault = None if val == '1' else 'lat-value'
+    st.site = 'lat=' + val
+    return st
+
+
 def b_importance(ch):
     ncells = 4
     fault = ch.choose('fault', ['none', 'imp:p-short', 'imp:p-long', 'imp:n-short-vs-p', 'three-cards',
@@ -322,6 +332,7 @@ def scenarios(tier):
         Scn('m=-1', b_transform, None, None, 'TR / TRCL / FILL with m=-1 at every site'),
         Scn('lattice', b_lattice, None, None, 'missing option, wrong cell, wrong dimensionality, array length'),
         Scn('lattice-arg', b_lattice_arg, None, None, 'malformed --lattice strings'),
+        Scn('lat-value', b_lat_value, None, None, 'LAT values other than 1 and 2'),
         Scn('importance', b_importance, None, None, 'IMP cards of unequal length'),
         Scn('fractions', b_fractions, None, None, 'mixed-sign material fractions'),
     ]
